@@ -85,9 +85,14 @@ def e2e_case(rng, n=None, xy=False, reorder=False, local=True, slm=False):
                 reorder=reorder)
     if reorder and rng.random() < 0.7:
         perm = list(range(n))
-        while perm == list(range(n)):
+        # not the identity and, whenever the register allows it (n >= 3), not its own inverse either: a gather/scatter
+        # mix-up (perm vs inverse perm) is invisible on involutions
+        for _ in range(200):
             rng.shuffle(perm)
-        case["perm"] = perm
+            inv = [perm.index(i) for i in range(n)]
+            if perm != list(range(n)) and (n < 3 or inv != perm):
+                break
+        case["perm"] = list(perm)
     if slm:
         # SLM-like schedule: interactions of some atoms switched off until t_switch (a grid time or not)
         times = case["prob"]["times"]
